@@ -380,8 +380,10 @@ func (c *ClientConn) maybeCachePrepared(request Request, raw *frame.RawFrame) {
 func (c *ClientConn) Closing(err error) {
 	c.closingMu.Lock()
 	c.closing = true
-	c.pending.closing(err)
 	c.closingMu.Unlock()
+	// Notify without holding the lock: OnClose() may retry the request on another connection (which takes that
+	// connection's closing lock) while that connection is closing and notifying a request that retries on this one.
+	c.pending.closing(err)
 }
 
 func (c *ClientConn) addToPending(request Request) (int16, error) {
